@@ -655,6 +655,7 @@ class WBEMSubscriptionManager:
             CIMError(CIM_ERR_ALREADY_EXISTS): A filter with the specified
               or generated `Name` property already exists in the server.
             ValueError: Incorrect input parameter values.
+            TypeError: Incorrect input parameter types.
         """
 
         # server_id is validated in _create_...() method.
@@ -674,6 +675,16 @@ class WBEMSubscriptionManager:
                 raise ValueError("For permanent destinations, the "
                                  "'destination_id' parameter must not be "
                                  "specified")
+
+        if destination_id is not None:
+            if not isinstance(destination_id, str):
+                raise TypeError(
+                    _format("Invalid type for destination ID: {0!A}",
+                            destination_id))
+            if ':' in destination_id:
+                raise ValueError(
+                    _format("Destination ID contains ':': {0!A}",
+                            destination_id))
 
         # Validate persistence_type, and default it to 3 (transient) if the
         # destination is owned.
